@@ -38,9 +38,9 @@ def record(progs, seeds, strategy, out, jobs=None, extra=None):
     os.makedirs(os.path.dirname(out), exist_ok=True)
 
     def one(item):
-        idx, (prog, cap, nreg, style) = item
+        idx, t = item
         raw = "%s.%d.ndjson" % (out, idx)
-        args = ["--scenario", "gc", "--params", gc.params_of(prog, cap, nreg, style), "--strategy", strategy, "--seeds", "%d:%d" % seeds, "--out", raw, "--max-steps", "20000"]
+        args = ["--scenario", "gc", "--params", gc.params_of(*t), "--strategy", strategy, "--seeds", "%d:%d" % seeds, "--out", raw, "--max-steps", "20000"]
         if strategy != "pb":
             args += ["-j", str(jobs or 2)]
         if extra:
@@ -140,7 +140,7 @@ def run(pid, tier, seed, replay=None):
         add_status(s1)
         # several retiring threads: more schedules per program (the interesting interleavings put one retire() between the
         # tick and the push of another, or a lock + retire between two steps of the collector)
-        e1, s1 = record(gc.MULTI, (base, base + (10 if quick else 120)), "mix", os.path.join(tdir, pid + "_multi"))
+        e1, s1 = record(gc.MULTI + gc.NEST + gc.WRAP, (base, base + (10 if quick else 120)), "mix", os.path.join(tdir, pid + "_multi"))
         execs += e1
         add_status(s1)
         rprogs = [gc.gen_program(rng) for _ in range(12 if quick else 120)]
@@ -248,10 +248,10 @@ def run(pid, tier, seed, replay=None):
         progs = []
         for key in drifting:
             p = key["params"]
-            t = (p["prog"], int(p["cap"]), int(p["nreg"]), int(p["style"]))
+            t = (p["prog"], int(p["cap"]), int(p["nreg"]), int(p["style"]), int(p.get("qbase", 0)))
             if t not in progs:
                 progs.append(t)
-        progs = progs[:2] + [t for t in gc.STRESS if t not in progs[:2]]
+        progs = progs[:2] + [t for t in gc.STRESS if tuple(t) + (0,) * (5 - len(t)) not in progs[:2]]
         base = seed * 1000 + 500
         extra, sx = record(progs, (base, base + (120 if quick else 1500)), "mix", os.path.join(tdir, pid + "_driftmix"))
         add_status(sx)
